@@ -16,6 +16,7 @@ import (
 	"slices"
 	"strings"
 	"sync"
+	"time"
 
 	"golang.org/x/tools/go/ssa"
 )
@@ -181,15 +182,15 @@ func (i *interpreter) ensureInit(pkg *ssa.Package) {
 		return
 	}
 	i.pkgState[pkg] = 1
-	// allocate all globals first
-	for _, m := range pkg.Members {
-		if g, ok := m.(*ssa.Global); ok {
-			if _, ok := i.globals[g]; !ok {
-				cell := zero(mustDeref(g.Type()))
-				i.globals[g] = &cell
+	if os.Getenv("GOSYM_INITTIME") != "" {
+		t0 := time.Now()
+		defer func() {
+			if d := time.Since(t0); d > 5*time.Millisecond {
+				fmt.Fprintf(os.Stderr, "init %s: %v\n", pkg.Pkg.Path(), d)
 			}
-		}
+		}()
 	}
+	// globals are allocated on first access (see global): some packages declare very large tables
 	if skipInit[pkg.Pkg.Path()] {
 		i.pkgState[pkg] = 2
 		return
@@ -673,6 +674,9 @@ func runFrame(fr *frame) {
 		}
 		r := recover()
 		if ea, ok := r.(engineAbort); ok {
+			if ea.kind == abUnsupported && !strings.Contains(ea.msg, " [in ") && !strings.Contains(ea.msg, " [called ") {
+				ea.msg += " [in " + stackOf(fr, 5) + "]"
+			}
 			panic(ea) // never visible to the target program
 		}
 		if fr.i.mode&DisableRecover != 0 {
